@@ -102,13 +102,26 @@ Definition cond_agreesb (c : econd) : bool :=
 Definition edges_agreeb (es : list redge) : bool :=
   (padding_edges_dropped_at_read || no_paddingb es) && forallb (fun e => cond_agreesb (e_cond e)) es.
 
-(* one row of the fragment: unnamed categories on every edge; node rows without node names / given ids, not random,
+(* one row of the fragment: node rows without node names / given ids, not random,
    carrying the class, the initial decision and at most the one action the reference reading of their kind gives *)
-Definition edge_okb (e : redge) : bool := match c_cname (e_cond e) with [] => true | _ => false end.
+Definition gen_base (args : list (option str)) : str := join_char 95%N (map (fun a => title (arg_text a)) args).
+Fixpoint alts (k : nat) : str := match k with O => [] | S k' => s_alt ++ alts k' end.
 
-Definition row_okb (cr : crow) : bool :=
+(* the invented names of a sheet: for every condition of the sheet the names generate_category_name may give its
+   category (the base name with any number of "_alt"), and the name of the default category *)
+Definition cond_bases (c : econd) : list str := [gen_base (ref_args c); gen_base [None; Some (c_value c)]].
+Definition sheet_bases (rows : list crow) : list str :=
+  flat_map (fun cr => flat_map (fun e => cond_bases (e_cond e)) (r_edges (cr_row cr))) rows.
+Definition gnameb (bases : list str) (n : str) : bool :=
+  str_eqb n s_Other || existsb (fun b => existsb (fun k => str_eqb n (b ++ alts k)) (seq 0 (S (length n)))) bases.
+
+(* an explicit category name must not be one of them, nor "No Response" *)
+Definition edge_okb (bases : list str) (e : redge) : bool :=
+  match c_cname (e_cond e) with [] => true | nm => negb (gnameb bases nm) && negb (str_eqb nm s_NoResponse) end.
+
+Definition row_okb (bases : list str) (cr : crow) : bool :=
   edges_agreeb (r_edges (cr_row cr)) &&
-  forallb edge_okb (r_edges (cr_row cr)) && match cr_uuid cr with [] => true | _ => false end &&
+  forallb (edge_okb bases) (r_edges (cr_row cr)) && match cr_uuid cr with [] => true | _ => false end &&
   match r_type (cr_row cr) with
   | TNode cls acts dec0 =>
     match r_node_name (cr_row cr), cr_uuid cr with
@@ -127,13 +140,33 @@ Definition row_okb (cr : crow) : bool :=
 
 (* the sheet starts with a node row (the first node of the flow is the first node allocated) *)
 Definition fragb (rows : list crow) : bool :=
-  forallb row_okb rows && match rows with cr :: _ => match r_type (cr_row cr) with TNode _ _ _ => true | _ => false end | [] => false end.
+  forallb (row_okb (sheet_bases rows)) rows && match rows with cr :: _ => match r_type (cr_row cr) with TNode _ _ _ => true | _ => false end | [] => false end.
 
-(* what the simulation needs of an edge condition: an unnamed category; the code's arguments are the reference's *)
-Definition cond_ok (c : econd) : Prop := c_cname c = [] /\ row_args c = ref_args c /\ noop_args c = ref_args c.
+(* ---------------------------------------------------------------- names the compiler invents
+   A category the sheet does not name gets a name from the compiler: generate_category_name = the arguments,
+   title-cased and joined by "_", with "_alt" appended while the name is taken; the default category is "Other".
+   The reference leaves such a name open (CWild).  G is a set of names that holds every name the compiler may invent
+   for the sheet at hand; an EXPLICIT name (condition_name) is required to lie outside G and to differ from
+   "No Response": get_or_create_category looks a name up among ALL categories of the router, the invented ones, the
+   default and the No Response category included (the findings category-name-clash). *)
+Notation cluster := (nat * option nat)%type (only parsing).          (* the row's node, the implicit router *)
+
+Class GenNames := { gname : str -> Prop; gname_other : gname s_Other }.
+
+Section Rel.
+Context {GN : GenNames}.
+
+(* every name generate_category_name may give the category of this condition is in G *)
+Definition gen_ok (c : econd) : Prop :=
+  forall k, gname (gen_base (ref_args c) ++ alts k) /\ gname (gen_base [None; Some (c_value c)] ++ alts k).
+
+(* what the simulation needs of an edge condition: the code's arguments are the reference's; the category is
+   unnamed and its invented name lies in G, or named with a name outside G *)
+Definition cond_ok (c : econd) : Prop :=
+  row_args c = ref_args c /\ noop_args c = ref_args c /\
+  match c_cname c with [] => gen_ok c | nm => ~ gname nm /\ nm <> s_NoResponse end.
 
 (* ---------------------------------------------------------------- the simulation relation *)
-Notation cluster := (nat * option nat)%type (only parsing).          (* the row's node, the implicit router *)
 
 Definition dest_sim (phi : list cluster) (uu : list id) (d : dest) (d' : dst) : Prop :=
   match d, d' with
@@ -143,7 +176,8 @@ Definition dest_sim (phi : list cluster) (uu : list id) (d : dest) (d' : dst) : 
   | _, _ => False
   end.
 
-Definition name_sim (c : cname) (n : str) : Prop := match c with CFixed s => s = n | CWild => True end.
+(* a name the sheet fixes is the category's name; a name it leaves open is one of the invented names *)
+Definition name_sim (c : cname) (n : str) : Prop := match c with CFixed s => s = n | CWild => gname n end.
 
 Definition cat_sim (phi : list cluster) (uu : list id) (x : cname * dest) (c : ccat) : Prop :=
   name_sim (fst x) (cc_name c) /\ dest_sim phi uu (snd x) (cat_dest c).
@@ -170,7 +204,10 @@ Record dec_sim (phi : list cluster) (uu : list id) (d : rdec) (r : cswitch) : Pr
   ds_uuids : NoDup (map cc_uuid (sw_all_cats r)) }.
 
 (* every case of the decision leads to one of its own (non-default) categories: routers that only grow by add_case *)
-Definition plain_dec (d : rdec) : Prop := Forall (fun k => snd k < length (rd_cats d)) (rd_cases d).
+(* ... whose default category has a name the sheet leaves open ("Other") and whose No Response category is called so *)
+Definition plain_dec (d : rdec) : Prop :=
+  Forall (fun k => snd k < length (rd_cats d)) (rd_cases d) /\ fst (rd_default d) = CWild
+  /\ match rd_noresp d with Some x => fst x = CFixed s_NoResponse | None => True end.
 
 (* the shape of a decision by the Python class of its node *)
 Definition shape_ok (cls : swclass) (d : rdec) : Prop :=
@@ -241,3 +278,4 @@ Record Sim (phi : list cluster) (sr : st) (sc : cstate) : Prop := {
   sim_acts : forall g ps k n, nth_error (s_groups sr) g = Some (GNoOp ps (Some k)) -> nth_error (s_nodes sr) k = Some n -> rn_actions n = [];
   sim_rowmap : s_rowmap sr = cs_rowmap sc;
   sim_stack : s_stack sr = cs_stack sc }.
+End Rel.
